@@ -68,6 +68,8 @@ def gen_call(lib, k, call):
         vn = "%s_%d" % (n, k)
         if kd == "val":
             actual.append(lit(args[n], T))
+        elif kd == "fnptr":
+            actual.append("vf_cb3")
         elif kd == "implied":
             actual.append("(%s)%d" % (ir.TYPES[T]["c"], len(args[p["of"]])))
         elif kd in ("cls_cptr", "cls_cref", "cls_ref"):
@@ -169,7 +171,7 @@ def gen_driver(lib, plan, headers):
     for h in headers:
         L.append('#include "%s"' % h)
     # the driver logs to stdout, the library to the file named by VF_TRACE
-    L += ["#define VF_TRACE_STDOUT 1", '#include "vf_trace.h"', "void vf_mark(int k);", "int main(void) {"]
+    L += ["#define VF_TRACE_STDOUT 1", '#include "vf_trace.h"', "void vf_mark(int k);", "static int vf_cb3(int i) { return 3 * i + 1; }", "int main(void) {"]
     objs = sorted({c["obj"] for c in plan if c.get("obj")})
     for o in objs:
         cls = next(c["cls"] for c in plan if c.get("obj") == o)
